@@ -10,7 +10,10 @@ import vlib
 
 PID = "C10"
 THEOREMS = [
+    "c10_reachable_wf",
     "c10_reload_partial",
+    "c10_story_printable",
+    "c10_reload_no_ctl_partial",
     "c10_params_substituted",
     "c10_define_precedence",
 ]
@@ -33,7 +36,7 @@ ASSUMPTIONS = [
     "clause level: a clause is one accepted line with its fields already split; the regexps that recognise a line, white space, continuation lines, comments, section headers and includes are NOT in the Coq model - they are exercised only by the harness (free layout, comments, continuation lines, includes and parameters on the way in; the printed text read back by the harness with the check render(parse(text)) == text on every case)",
     "outside the model, passed as oracles (the theorems hold for every value of them; the cases instantiate them with tables computed by the real libraries): govaluate (which variables an expression mentions), Go regexp (compiles, group names; MatchString / ReplaceAllString only for the literal letter-digit patterns the generator uses for `repeat from` and `edit`), time.ParseDuration / Duration.String (the theorem assumes ParseDuration(d.String()) = d and that a printed duration holds no `~`)",
     "not modelled (compared by the harness on the exported configuration only): cfg.varNames order, the variables' watcher lists, actor sinks (they only show in comment lines of -p and in the CSV / plot fan-out); identifiers are checked on bytes, every byte >= 0x80 counting as a letter",
-    "the storyline functions are Model/Storyline.v (C06); that a storyline accepted once is accepted again from its printed form is a hypothesis of c10_reload_partial (story_printable), discharged for every generated case by evaluation",
+    "the storyline functions are Model/Storyline.v (C06); `story_printable` (a storyline accepted once is accepted again from its printed form) is a hypothesis of c10_reload_partial; c10_story_printable discharges it with the C06 theorems for runs whose storyline texts and edit results hold no white space but ' ' (C06's own domain assumption), and it is evaluated on every generated case",
     "harmless normalisations before two loads are compared: interpretation clauses of a member without `expects` are not printed (no effect: only `expects` produces the reports the foul conditions count); `repeat -3 times` / `repeat time -5s` print as always / unconstrained; repeat count / time without `repeat from` or without storyline are not printed (no effect); the order of one observer's watches (allowed by the statement; it is map-iteration order in the implementation, so Config / ConfigHash may differ between two runs on the same file)",
     "the comparison of the exported configuration data, of the printSteps text, of the inlined variant (parameters substituted by hand, no includes, plain layout), of the commented -p text and of the annotated print is done by the harness in Go; Coq evaluates the model and the equality of the printed clause lists up to the order of one observer's watches",
 ]
@@ -112,7 +115,7 @@ def report(res, cases, summary, bad, seed, tier):
                            "also_oracle_failure": sorted(set(idx) & reported)[:10]}, no_input=True)
     if bad["H"]:
         c = get(bad["H"][0]) or {"Id": bad["H"][0]}
-        res.violation(None, "the hypothesis of c10_reload_partial excludes %d configurations whose reload works (it must only exclude the listed defect shapes), e.g. case %s"
+        res.violation(None, "on %d cases the model state is not wf_state, or `printable` (the hypothesis of c10_reload_partial, which must exclude exactly the listed defect shapes) disagrees with whether the implementation's reload works, e.g. case %s"
                       % (len(bad["H"]), c.get("Id")),
                       {"kind": "correspondence", "query": "H", "Input": c}, no_input=True)
 
